@@ -112,6 +112,15 @@ def build_labware(spec, shared=None):
             kwargs["component_names"] = dict(spec["names"])
         return robotools.Labware(spec["name"], py_int(spec["rows"]), py_int(spec["cols"]), **kwargs)
     kwargs = dict(min_volume=to_float(spec["min"]), max_volume=to_float(spec["max"]))
+    if spec.get("via_labware"):
+        # a trough created through the base class: Labware(name, 1, columns, virtual_rows=N)
+        if spec.get("init") is not None:
+            kwargs["initial_volumes"] = np_arg(spec["init"], to_float) if shared is None else shared
+        import warnings
+
+        with warnings.catch_warnings():
+            warnings.simplefilter("ignore")
+            return robotools.Labware(spec["name"], 1, py_int(spec["cols"]), virtual_rows=py_int(spec["vrows"]), **kwargs)
     if spec.get("init") is not None:
         kwargs["initial_volumes"] = np_arg(spec["init"], to_float) if shared is None else shared
     if spec.get("column_names") is not None:
@@ -624,6 +633,9 @@ def e_lwspec(s):
         return ("(LPlate {| a_name := %s; a_rows := %s; a_cols := %s; a_min := %s; a_max := %s; a_init := %s; a_vrows := %s; a_names := %s |})"
                 % (cstr(s["name"]), e_int(s["rows"]), e_int(s["cols"]), cxnum(s["min"]), cxnum(s["max"]), e_init(s.get("init")),
                    copt(s.get("vrows"), e_int), clist([f"({cstr(k)}, {copt(v, cstr)})" for k, v in names.items()])))
+    if s.get("via_labware"):
+        return ("(LPlate {| a_name := %s; a_rows := PInt 1; a_cols := %s; a_min := %s; a_max := %s; a_init := %s; a_vrows := %s; a_names := [] |})"
+                % (cstr(s["name"]), e_int(s["cols"]), cxnum(s["min"]), cxnum(s["max"]), e_init(s.get("init")), copt(s["vrows"], e_int)))
     cn = s.get("column_names")
     if cn is None:
         ccn = "CNone"
